@@ -7,7 +7,10 @@
 EXTENDS Path, Json, CSV, IOUtils
 CONSTANTS MaxSegs
 
-Segs == {DotDot, Dot, <<>>, <<97>>, <<98, 32, 99>>}
+\* the terminal's own directory name (the sandbox phone 13800000001) extended by a character: a sibling
+\* whose name has the directory's name as a string prefix
+PhoneX == <<49, 51, 56, 48, 48, 48, 48, 48, 48, 48, 49, 120>>
+Segs == {DotDot, Dot, <<>>, <<97>>, <<98, 32, 99>>, PhoneX}
 VARIABLES segs, rooted
 \* names at the wire limits: "../" repeated, up to 255 bytes in 0x1210 and 50 in a chunk header
 Long == {[i \in 1..(k + 1) |-> IF i <= k THEN DotDot ELSE <<120>>] : k \in {1, 2, 5, 16, 84}}
